@@ -156,7 +156,7 @@ def gen_cases(rec, rng, tier):
         for (name, RP, eps) in pdag.shipped_pdas(env.REPO):
             yield {'cls': 'shipped_' + name, 'ref': RP, 'n': 4, 'limit': 1000, 'eps': eps}
             yield {'cls': 'shipped_' + name, 'ref': RP, 'n': 4, 'limit': 10, 'eps': eps}
-    for _ in range(250 if thorough else 90):
+    for _ in range(800 if thorough else 90):
         RP = pdag.random_pda(rng, rng.randint(1, 4), rng.randint(1, 2), rng.randint(0, 3), rng.randint(1, 8), p_eps=rng.choice([0.15, 0.35, 0.6]))
         lim = rng.choice(limits)
         yield {'cls': 'random_pda', 'ref': RP, 'n': n if lim <= 50 else 3, 'limit': lim, 'eps': rng.choice(['', '_', 'ε'])}
